@@ -146,6 +146,7 @@ type Config struct {
 	FailCommitAt       []uint64 `json:"fail_commit_at,omitempty"` // heights whose commit callback returns an error
 	CommitteeFailFirst int      `json:"committee_fail_first,omitempty"`
 	AbsentAt           uint64   `json:"absent_at,omitempty"`          // the node is not in the committee of this height (it moves on by sync only)
+	SyncCtxPerCall     bool     `json:"sync_ctx_per_call,omitempty"`  // UpdateState gets a per-call context which the consumer cancels as soon as the call has returned
 	CommitHonoursCtx   bool     `json:"commit_honours_ctx,omitempty"` // the consumer's commit callback returns ctx.Err() when its context was cancelled while it ran
 }
 
@@ -680,6 +681,11 @@ func (h *H) BuildChain(k uint64) {
 func (h *H) UpdateState(block *fakes.Block, proof []byte, callCtx context.Context) (err error, ok bool) {
 	if callCtx == nil {
 		callCtx = context.Background()
+		if h.Cfg.SyncCtxPerCall { // the usual "ctx, cancel := context.WithTimeout(...); defer cancel()" of a request handler
+			var cancel context.CancelFunc
+			callCtx, cancel = context.WithCancel(callCtx)
+			defer cancel()
+		}
 	}
 	done := make(chan error, 1)
 	go func() {
